@@ -367,8 +367,14 @@ def text_batch(asm, acc, cases, why):
         # the alias definitions go first; chunks are attributed by line, so shift the index
         nalias = len(ALIAS_DEFS)
         lines = ALIAS_DEFS + lines
+    # every third batch: the caller's label table is left over from other programs and holds names spelled like registers (labels
+    # may be called anything) - in a register position a register name is a register
+    preseed = None
+    if len(lines) % 3 == 0:
+        preseed = {'labels': {'t1': 8, 's1': 12, 'x9': 16, 'a0': 20, 'sp': 24, '5': 28, 'zero': 4, 'x0': 2, 'ra': 40, '31': 6, 'x31': 0, 'fp': 64, 'T6': 10, '0x5': 30}}
+        acc['ctr']['text_batches_with_register_named_leftover_labels'] += 1
     with monitors.EncoderMonitor(asm) as mon:
-        lay = monitors.layout(asm, lines)
+        lay = monitors.layout(asm, lines, preseed=preseed)
     if nalias and lay.chunks is not None:
         lay.chunks = lay.chunks[nalias:]
     acc['ctr']['text_batches'] += 1
